@@ -51,12 +51,12 @@ func ChaChaBlock(key []byte, nonce []byte, counter uint32) [64]byte {
 }
 
 // ChaChaStream returns keystream bytes [from, from+n)
-func ChaChaStream(key, nonce []byte, from, n int) []byte {
+func ChaChaStream(key, nonce []byte, from uint64, n int) []byte {
 	out := make([]byte, 0, n)
 	for len(out) < n {
-		pos := from + len(out)
+		pos := from + uint64(len(out))
 		blk := ChaChaBlock(key, nonce, uint32(pos/64))
-		off := pos % 64
+		off := int(pos % 64)
 		take := 64 - off
 		if take > n-len(out) {
 			take = n - len(out)
